@@ -2,7 +2,7 @@
 //! Also hosts the shared stop-point enumeration used by C03(b), C07, C09 and C16.
 
 use super::*;
-use crate::{gen::*, image::*, interp::*, model::*, runner::*, spec::*};
+use crate::{gen::*, image::*, interp::*, runner::*, spec::*};
 use proptest::prelude::*;
 use serde::{Deserialize, Serialize};
 use std::path::Path;
